@@ -20,7 +20,7 @@ from _griffe.enumerations import Kind
 from _griffe.extensions.base import Extension, Extensions
 from _griffe.mixins import ObjectAliasMixin
 from _griffe.models import Alias, Attribute, Class, Docstring, Function, Module, Object
-from vlib.ob import TIER, HarnessDefect, cover, fail, obligation, tiered
+from vlib.ob import TIER, HarnessDefect, cover, fail, obligation, tiered, prop
 from vlib.stubs import plain_error_messages, silence_logging
 
 STUBS = silence_logging() + plain_error_messages()
@@ -64,8 +64,8 @@ PRED_KINDS = tiered((0, 2), (0, 1, 2, 3))
     and 1 <= len(e1) <= 3 and all(c in NAME_AL for c in e1)
     and -1 <= nexports <= 2 and nexports != 0 and -1 <= public <= 1 and 0 <= parent_kind <= 2 and obj_kind in PRED_KINDS and not (parent_kind == 0 and imported),
     shards=lambda: [(f"parent={p},alias={a},kind={k},public={pb}", None, [dict(parent_kind=p, is_alias=a, obj_kind=k, public=pb)]) for p in range(3) for a in (False, True) for k in PRED_KINDS for pb in (-1, 0, 1)],
-    drives=[ObjectAliasMixin.is_public.fget, ObjectAliasMixin.is_private.fget, ObjectAliasMixin.is_special.fget, ObjectAliasMixin.is_class_private.fget,
-            ObjectAliasMixin.is_imported.fget, ObjectAliasMixin.is_exported.fget, ObjectAliasMixin.is_wildcard_exposed.fget],
+    drives=[prop(ObjectAliasMixin, "is_public"), prop(ObjectAliasMixin, "is_private"), prop(ObjectAliasMixin, "is_special"), prop(ObjectAliasMixin, "is_class_private"),
+            prop(ObjectAliasMixin, "is_imported"), prop(ObjectAliasMixin, "is_exported"), prop(ObjectAliasMixin, "is_wildcard_exposed")],
     bounds={"name": "1..3 chars over '_a' (covers public, _private, __class_private, __ / ___ special)", "__all__": "absent, [e1] or [e1, 'zz'] with e1 1..3 chars over '_a' (empty __all__ left open)", "public": "None/True/False",
             "parent": "none/module/class", "object kind": tiered("module/function", "module/class/function/attribute"), "alias or object": "both"},
     value_symbolic=["name", "__all__ entry e1", "number of entries", "public flag", "imported", "runtime"], selectors=["parent kind, object kind, alias-or-object (driver-bound)"],
@@ -144,7 +144,7 @@ def _mk_lines(nlines, variant):
     pre=lambda nlines, variant, lineno, endlineno, is_module, in_collection: 1 <= nlines <= 5 and -1 <= lineno <= nlines + 1 and -1 <= endlineno <= nlines + 1 and lineno != 0 and endlineno != 0
     and (lineno == -1 or endlineno == -1 or lineno <= endlineno),
     shards=lambda: [(f"nlines={n},module={m}", None, [dict(nlines=n, is_module=m, variant=v) for v in range(len(TEXT_VARIANTS))]) for n in range(1, 6) for m in (False, True)],
-    drives=[Object.lines.fget, Object.source.fget, Object.lines_collection.fget],
+    drives=[prop(Object, "lines"), prop(Object, "source"), prop(Object, "lines_collection")],
     bounds={"file": "1..5 lines, two indentation variants of the first lines (driver-bound)", "lineno/endlineno": "None or 1..nlines+1 (may exceed the file by one)"},
     value_symbolic=["lineno", "endlineno", "whether the file is in the lines collection"], selectors=["number of lines, module-or-function, indentation variant (driver-bound)"],
     stubs=STUBS, must_cover=["sliced", "no-lineno", "not-in-collection"],
@@ -191,7 +191,7 @@ def span_slice(nlines: int, variant: int, lineno: int, endlineno: int, is_module
     pid="C01", name="docstring_slice", timeout=tiered(250, 900),
     pre=lambda nlines, variant, dl, dend: 1 <= nlines <= 5 and 1 <= dl <= dend <= nlines + 1,
     shards=lambda: [(f"nlines={n}", None, [dict(nlines=n, variant=v) for v in range(len(TEXT_VARIANTS))]) for n in range(1, 6)],
-    drives=[Docstring.lines.fget, Docstring.source.fget],
+    drives=[prop(Docstring, "lines"), prop(Docstring, "source")],
     bounds={"file": "1..5 lines, two indentation variants", "docstring lineno/endlineno": "1 <= lineno <= endlineno <= nlines+1"},
     value_symbolic=["docstring lineno", "docstring endlineno"], selectors=["number of lines, indentation variant (driver-bound)"], stubs=STUBS,
     grid=lambda seed: [dict(nlines=3, variant=1, dl=a, dend=b) for a in (1, 2) for b in (2, 3)],
